@@ -7,12 +7,15 @@
 //!                         framed token strings (SyltPipeline!TokenTextAt, index order of TokenStringAt), no_std
 //!   c07 run mut <count> <outdir> <name>                            seeded mutations of /repo/tests/**/*.sy and /repo/std/*.sy, with std
 //!   c07 run proj <outdir> <name>                                   multi-file projects served from memory, with and without std
-//!   c07 run cases <cases.ndjson> <outdir> <name>                   arbitrary case file (replay)
+//!   c07 run cases <cases.ndjson> <outdir> <name>                   arbitrary case file (replay; the TLA+-defined families
+//!                         SyltPipeline!FamCase emitted by TLC: kind "fam:<family>", whole text recorded for re-derivation)
+//!   c07 show <file.sy | dir | case.json | cases.ndjson> [--std]    debugging aid: what the compiler says
 //!   c07 worker <universe> <cases|-> <from> <to> <out>              internal: one result line per input, flushed
 //!   c07 minimise <case.json>                                       ddmin a failing case (in-process; caller sets a timeout)
 //! Output: <outdir>/<name>.trace.ndjson (for TLC, no source texts except token strings) and
 //!         <outdir>/<name>.cases.ndjson (line-aligned full inputs) for mut/proj/cases.
 //! C07_STUB=dropfinish|fakepanic replaces the observation for a fixed subset of inputs (negative control).
+//! After MAX_TIMEOUTS recorded timeouts in one universe the recorder stops; inputs it did not run get the event `notrun`.
 
 use rand::{Rng, SeedableRng};
 use serde::{Deserialize, Serialize};
